@@ -28,6 +28,8 @@ func runSessions(r *Run, cases []*RCase, what func(c *RCase, i int, g, m string)
 		lines = append(lines, c.Req)
 		live = append(live, c)
 	}
+	// parser oracle: the trees the sessions run on are what the sources mean (asttie.go)
+	checkParseBatch(r, live)
 	ans := r.Drive(lines)
 	for k, c := range live {
 		c.Answer = ans[k]
